@@ -422,7 +422,7 @@ def ex_sb31(p, r, full):
     bits, rights = p["bits"], p["rights"]
     key = rb(r, p["kl"])
     ok = bits in (128, 256) and rights in (0, 1, 2, 3)
-    pcs = f"bits={bits},rights={'ok' if rights < 4 else 'bad'},const={p['const']}"
+    pcs = f"bits={bits},rights={'ok' if rights < 4 else 'bad'},key={8 * p['kl']},const={'wide' if const >= 1 << 32 else 'word'}"
 
     def ev(mode, fn_name, k, out, link):
         P = aes_prim(k) if ok and len(k) in (16, 24, 32) else None
